@@ -156,3 +156,38 @@ def chunks(lines, n):
 def pool(init, initargs, procs=16):
     ctx = mp.get_context("fork")
     return ctx.Pool(procs, initializer=init, initargs=initargs)
+
+
+# ---- deadlines: a change to the library that makes a call loop forever must not make a check hang ---------------------
+import signal
+
+
+class Hang(Exception):
+    """A call into the library did not return within the time limit."""
+
+
+def _on_alarm(signum, frame):
+    raise Hang("the call did not return within the time limit")
+
+
+HANGS = [0]     # per worker process: after a few calls that did not return, the rest is not attempted any more
+
+
+def call_with_deadline(fn, seconds=10):
+    if HANGS[0] >= 3:
+        raise Hang("not attempted: earlier calls in this worker did not return within the time limit")
+    try:
+        return _deadline(fn, seconds)
+    except Hang:
+        HANGS[0] += 1
+        raise
+
+
+def _deadline(fn, seconds):
+    old = signal.signal(signal.SIGALRM, _on_alarm)
+    signal.setitimer(signal.ITIMER_REAL, seconds)
+    try:
+        return fn()
+    finally:
+        signal.setitimer(signal.ITIMER_REAL, 0)
+        signal.signal(signal.SIGALRM, old)
